@@ -276,7 +276,7 @@ func (d valueDraw) strct(depth int, bad bool) *model.Msg {
 				continue
 			}
 		}
-		if seen[k] {
+		for seen[k] {
 			k += string(rune('a' + i))
 		}
 		seen[k] = true
